@@ -40,6 +40,28 @@ Theorem C27_summary_exact : forall kn ke n kids loc, lsize kids <= n ->
   cnt_list kn loc kids = count_files (flat_list loc (rw_list kn ke loc kids)).
 Proof. exact summary_exact. Qed.
 
+(* the node cache (off in rewrite, on in repair snapshots): with tree IDs = content hashes and decisions that do
+   not depend on where a tree sits, the cached traversal computes the same tree; decisions on the last path
+   component only are such; the rewrite filters are not (witness in Proofs/C27p.v: cache_unsound_for_path_filters) *)
+Theorem C27_cache_sound : forall kn ke tid, (forall a b, tid a = tid b -> a = b) -> path_independent kn ke ->
+  forall top loc, fst (rwc_list kn ke tid [] loc top) = rw_list kn ke loc top.
+Proof. exact cache_sound. Qed.
+
+Theorem C27_basename_filters_independent : forall (f : bytes -> bool -> bool) (g : bool) kn ke,
+  (forall loc name d, kn (desc loc name) d = f name d) -> (forall p, ke p = g) -> path_independent kn ke.
+Proof. exact basename_filters_independent. Qed.
+
+Theorem C27_cache_unsound_for_path_filters : exists kn ke tid top,
+  fst (rwc_list kn ke tid [] [] top) <> rw_list kn ke [] top /\ ~ path_independent kn ke.
+Proof.
+  eexists; eexists; eexists; eexists. destruct cache_unsound_for_path_filters as [H1 [H2 H3]]. split.
+  - rewrite H1, H2. discriminate.
+  - intro PI. apply H3. apply PI.
+Qed.
+
+Print Assumptions C27_cache_sound.
+Print Assumptions C27_basename_filters_independent.
+Print Assumptions C27_cache_unsound_for_path_filters.
 Print Assumptions C27_exclude_exact.
 Print Assumptions C27_include_exact.
 Print Assumptions C27_include_exact_gen.
